@@ -16,7 +16,7 @@ from .optmodels import LT, lie
 
 NAME = "groupsim"
 SIM_UNIT = "group operations"
-BUDGET = {"quick": {"runs": 400, "wall": 85}, "thorough": {"runs": 12000, "wall": 2400}}
+BUDGET = {"quick": {"runs": 1600, "wall": 85}, "thorough": {"runs": 12000, "wall": 2400}}
 SHRINK_LISTS = ("ops",)
 PROBES = {"C03": ["history>=1000", "history>=10000", "act4:w=0", "float32", "batched", "scale-steered",
                   "assoc", "act-compose", "identity", "inverse", "reinit-from-identity", "logscale>8"]}
@@ -34,7 +34,8 @@ def generate(seed, tier, prop="C03"):
     else:
         n = 1500 if x < 0.03 else r.randint(5, 300)
     cfg = {"fam": fam, "dtype": r.choice(["f64", "f64", "f32"]), "bshape": r.choice([[], [1], [3], [2, 2]]),
-           "sigma": r.choice([0.05, 0.3, 1.0, 2.5]), "logs_bound": r.choice([3.0, 3.0, 8.0, 16.0])}
+           "sigma": r.choice([0.05, 0.3, 1.0, 2.5]), "logs_bound": r.choice([3.0, 3.0, 8.0, 16.0]),
+           "sdrift": r.choice([0, 0, 0, -1, 1])}
     ro = rng.stream(seed, "ops")
     wu = {k: ro.choice([0, 1, 2, 4]) for k in UPDATES}
     wu["reinit"] = min(wu["reinit"], 1) if n <= 400 else 0
@@ -177,6 +178,9 @@ def execute(plan, prop, out, tr):
             out.probe("logscale>8")
         if op in UPDATES:
             a = alg(i, "a")
+            if has_s and c.get("sdrift") and not steer:
+                # a shrinking / growing similarity: the log-scale drifts one way until the bound steers it back
+                a[..., -1] = float(c["sdrift"]) * (a[..., -1].abs() + 0.4)
             if steer:
                 a[..., -1] = torch.tensor(-np.sign(logs) * np.abs(a[..., -1].numpy()))
                 out.probe("scale-steered")
